@@ -194,6 +194,53 @@ def run(res, tier):
                 tfuncs.setdefault(n.get("n"), n)
     if wfn is None:
         raise AnalysisError("mjCModel::CopyNames not found")
+    # N5: names in the table are unique because the compiler rejects repeated names: the repeated-name check (the function
+    # that sorts the names of a list and looks for adjacent duplicates, found by role) is called for every list unless the
+    # caller asks otherwise -- never skipped on a condition computed from the data
+    res.rule("R-REPEAT", "the compiler's repeated-name check is not skipped on a data-dependent condition", floor=1)
+    checker = [n_ for n_, f_ in tfuncs.items() if any(cir.is_call(c_) and "adjacent_find" in cir.text(c_)[:40] for c_ in cir.walk(f_))
+               and any(cir.is_call(c_) and "sort" in (cir.text(c_)[:20]) for c_ in cir.walk(f_))]
+    if len(checker) != 1:
+        raise AnalysisError(f"{UM}: the repeated-name check (sort + adjacent_find over the names of a list) was not identified: {checker}")
+    nrep = 0
+    for d in ir["decls"]:
+        for f_ in cir.walk(d):
+            if f_.get("k") not in ("CXXMethodDecl", "FunctionDecl") or cir.body(f_) is None or f_.get("n") == checker[0]:
+                continue
+            bools = {p_.get("n") for p_ in cir.params(f_) if (p_.get("t") or "").replace("const ", "").strip() in ("bool", "_Bool")}
+            par = {}
+            for x in cir.walk(f_):
+                for c_ in cir.kids(x):
+                    if c_ is not None:
+                        par[id(c_)] = x
+            for c_ in cir.walk(cir.body(f_)):
+                if not (cir.is_call(c_) and (cir.callee(c_) == checker[0] or cir.text(c_).startswith(checker[0] + "(") or
+                                              f"->{checker[0]}(" in cir.text(c_)[:60])):
+                    continue
+                nrep += 1
+                conds = []
+                x = c_
+                while id(x) in par:
+                    p_ = par[id(x)]
+                    if p_.get("k") == "IfStmt":
+                        ks = [k_ for k_ in cir.kids(p_)]
+                        idx = int(bool(p_.get("hasInit"))) + int(bool(p_.get("hasVar")))
+                        if ks[idx] is not x:
+                            conds.append(ks[idx])
+                    elif p_.get("k") in ("ConditionalOperator",):
+                        conds.append(cir.kids(p_)[0])
+                    x = p_
+                bad_c = [cd for cd in conds if cir.text(cir.strip(cd)).lstrip("!(").rstrip(")") not in bools]
+                key = f"{f_.get('n')}:{checker[0]}"
+                if bad_c:
+                    res.bad("R-REPEAT", key, UM, c_.get("line"),
+                            f"{f_.get('n')} calls {checker[0]} only under `{cir.text(bad_c[0])[:70]}`: a list for which that condition "
+                            f"fails is compiled without the repeated-name check, so two objects of one type can share a name and "
+                            f"mj_name2id(mj_id2name(id)) returns the other one")
+                else:
+                    res.ok("R-REPEAT", key, {"guards": [cir.text(cd) for cd in conds]})
+    if nrep == 0:
+        raise AnalysisError(f"{UM}: no call of the repeated-name check {checker[0]} found")
 
     def _callees(fn):
         out = set()
